@@ -1,6 +1,6 @@
 import IncrVerif.Proofs.GateF7
 /-!
-# C06, combined fragment, part 8: the stamp frame `RR` for successful runs (end) — notifications, `maybeChangeValue`, `recomputeOne env fuel n` (`RR (· = n)`), `rchRemoveMin` (port of `OnceF16`)
+# C06, combined fragment, part 8: the stamp frame `RR` for successful runs (end) — notifications, `maybeChangeValue`, `rchRemoveMin` (port of `OnceF16`).  UNFINISHED: the last rung, `POk (RR (· = n)) (recomputeOne env fuel n)`, is NOT here (the decomposition tactic `okpres` exceeds the heartbeat budget on `recomputeOne`; its branches are covered by the leaves above), so the stamp frame is not used by `Props/C06Full`
 -/
 open IncrVerif.Engine IncrVerif.Proofs IncrVerif.Proofs.Step
 namespace IncrVerif.Proofs.GateF
@@ -26,11 +26,6 @@ theorem POk.maybeChangeValue (env fuel n v) : POk (RR (fun m => m = n)) (maybeCh
   unfold Engine.maybeChangeValue; okpres
 o_leaf POk.maybeChangeValue
 
-
-set_option maxHeartbeats 2000000 in
-theorem POk.recomputeOne (env fuel n) : POk (RR (fun m => m = n)) (recomputeOne env fuel n) := by
-  unfold Engine.recomputeOne; okpres
-o_leaf POk.recomputeOne
 
 set_option maxHeartbeats 2000000 in
 theorem POk.rchRemoveMin (ex : Nat → Prop) : POk (RR ex) rchRemoveMin := by unfold Engine.rchRemoveMin; okpres
